@@ -41,7 +41,7 @@ def _percent(self, other):
                 for m, a, sym in zip(specs, args, symbolic):
                     out.append(self[last:m.start()])
                     last = m.end()
-                    if sym and m.group(5) in 'diouxXeEfFgG':
+                    if sym and m.group(5) in 'diouxXeEfFgGs':
                         out.append('<sym>')
                     else:
                         out.append(m.group(0))
@@ -67,3 +67,34 @@ def _never_shortcircuit(*a, **k):
 
 
 _core.consider_shortcircuit = _never_shortcircuit
+
+
+# f-strings and constant '%s' formats compile to FORMAT_VALUE: same stub for symbolic numbers there
+from crosshair import opcode_intercept as _oi  # noqa: E402
+
+_SYMNUM = (_b.RealBasedSymbolicFloat, _b.SymbolicInt)
+
+
+def _is_symnum(v):
+    with _NoTracing():
+        return type(v) in _SYMNUM
+
+
+def _fs_str(self):
+    self.formatted = '<sym>' if _is_symnum(self.value) else str(self.value)
+    return ""
+
+
+def _fs_format(self, fmt):
+    self.formatted = '<sym>' if _is_symnum(self.value) else format(self.value, fmt)
+    return ""
+
+
+def _fs_repr(self):
+    self.formatted = '<sym>' if _is_symnum(self.value) else repr(self.value)
+    return ""
+
+
+_oi.FormatStashingValue.__str__ = _fs_str
+_oi.FormatStashingValue.__format__ = _fs_format
+_oi.FormatStashingValue.__repr__ = _fs_repr
